@@ -211,6 +211,15 @@ static nitro::options::group& group_for(nitro::options::parser& p, std::size_t k
 
 // Declaration ORDER must not influence parsing: the order in which the three kinds and the entries of each kind are declared is
 // derived from a hash of the declaration itself (deterministic per case, different across cases).
+// references kept by the caller (as a program keeps the option&/toggle& it got when declaring): later attribute changes go through them
+struct handles_t
+{
+    std::map<std::string, nitro::options::option*> o;
+    std::map<std::string, nitro::options::multi_option*> m;
+    std::map<std::string, nitro::options::toggle*> t;
+};
+static handles_t* g_handles = nullptr;
+
 static void declare_into(nitro::options::parser& p, const decl_t& d, std::set<std::string>& have)
 {
     std::size_t k = have.size();
@@ -221,6 +230,7 @@ static void declare_into(nitro::options::parser& p, const decl_t& d, std::set<st
     auto decl_o = [&](const odecl& o) {
         if (!have.insert(o.name).second) return;
         auto& x = group_for(p, k++).option(o.name, "d");
+        if (g_handles) g_handles->o[o.name] = &x;
         if (o.has_sh) x.short_name(o.sh);
         if (o.has_env) x.env(o.env);
         if (o.has_def) x.default_value(o.def);
@@ -229,6 +239,7 @@ static void declare_into(nitro::options::parser& p, const decl_t& d, std::set<st
     auto decl_m = [&](const mdecl& o) {
         if (!have.insert(o.name).second) return;
         auto& x = group_for(p, k++).multi_option(o.name, "d");
+        if (g_handles) g_handles->m[o.name] = &x;
         if (o.has_sh) x.short_name(o.sh);
         if (o.has_env) x.env(o.env);
         if (o.has_def) x.default_value(o.def);
@@ -237,6 +248,7 @@ static void declare_into(nitro::options::parser& p, const decl_t& d, std::set<st
     auto decl_t_ = [&](const tdecl& o) {
         if (!have.insert(o.name).second) return;
         auto& x = group_for(p, k++).toggle(o.name, "d");
+        if (g_handles) g_handles->t[o.name] = &x;
         if (o.has_sh) x.short_name(o.sh);
         if (o.has_env) x.env(o.env);
         x.default_value(o.def);
@@ -254,6 +266,50 @@ static void declare_into(nitro::options::parser& p, const decl_t& d, std::set<st
     if (d.allowed == "~") p.accept_positionals();
     else p.accept_positionals(static_cast<std::size_t>(std::atol(d.allowed.c_str())));
     p.greedy_postionals(d.greedy == "1");
+}
+
+// u:<decl> — the same entries (plus possibly new ones) with changed attributes: every change is made through the handle kept
+// from the original declaration, never by re-requesting the option from the parser
+static bool update_through_handles(nitro::options::parser& p, const decl_t& cur, const decl_t& nd, std::set<std::string>& have, handles_t& h)
+{
+    for (auto& n : nd.os)
+        for (auto& c : cur.os)
+            if (c.name == n.name)
+            {
+                auto it = h.o.find(n.name);
+                if (it == h.o.end()) return false;
+                auto& x = *it->second;
+                if (n.has_sh && !c.has_sh) x.short_name(n.sh);
+                if (n.has_env && (!c.has_env || c.env != n.env)) x.env(n.env);
+                if (n.has_def && (!c.has_def || c.def != n.def)) x.default_value(n.def);
+                if (n.opt && !c.opt) x.optional();
+            }
+    for (auto& n : nd.ms)
+        for (auto& c : cur.ms)
+            if (c.name == n.name)
+            {
+                auto it = h.m.find(n.name);
+                if (it == h.m.end()) return false;
+                auto& x = *it->second;
+                if (n.has_sh && !c.has_sh) x.short_name(n.sh);
+                if (n.has_env && (!c.has_env || c.env != n.env)) x.env(n.env);
+                if (n.has_def && (!c.has_def || c.def != n.def)) x.default_value(n.def);
+                if (n.opt && !c.opt) x.optional();
+            }
+    for (auto& n : nd.ts)
+        for (auto& c : cur.ts)
+            if (c.name == n.name)
+            {
+                auto it = h.t.find(n.name);
+                if (it == h.t.end()) return false;
+                auto& x = *it->second;
+                if (n.has_sh && !c.has_sh) x.short_name(n.sh);
+                if (n.has_env && (!c.has_env || c.env != n.env)) x.env(n.env);
+                if (n.def != c.def) x.default_value(n.def);
+                if (n.rev && !c.rev) x.allow_reverse();
+            }
+    declare_into(p, nd, have);      // entries that are new in nd
+    return true;
 }
 
 static void apply_env(const decl_t& d, const std::string& envword, std::vector<std::string>& set_names)
@@ -300,6 +356,8 @@ static std::string run_steps(const std::vector<std::string>& w)
     {
         auto p = std::make_unique<nitro::options::parser>("app", "about");
         std::set<std::string> have;
+        handles_t handles;
+        struct handles_scope { handles_scope(handles_t* h) { g_handles = h; } ~handles_scope() { g_handles = nullptr; } } scope(&handles);
         declare_into(*p, cur, have);
         bool first = true;
         for (std::size_t k = 3; k < w.size(); k++)
@@ -323,6 +381,14 @@ static std::string run_steps(const std::vector<std::string>& w)
                 cur = nd;
                 apply_env(cur, envword, set_names);
             }
+            else if (st[0] == 'u')
+            {
+                decl_t nd = read_decl(arg);
+                if (!nd.ok) return "BADCASE";
+                if (!update_through_handles(*p, cur, nd, have, handles)) return "BADCASE";
+                cur = nd;
+                apply_env(cur, envword, set_names);
+            }
             else if (st[0] == 'M')
             {
                 // move-ASSIGN another, separately declared parser into the long-lived object
@@ -331,6 +397,7 @@ static std::string run_steps(const std::vector<std::string>& w)
                 {
                     nitro::options::parser other("app", "about");
                     std::set<std::string> h2;
+                    handles = handles_t();
                     declare_into(other, nd, h2);
                     *p = std::move(other);
                     have = h2;
@@ -346,7 +413,9 @@ static std::string run_steps(const std::vector<std::string>& w)
                 out += one_parse(*p, cur, args);
                 nitro::options::parser fresh("app", "about");
                 std::set<std::string> none;
+                g_handles = nullptr;
                 declare_into(fresh, cur, none);
+                g_handles = &handles;
                 out += " # " + one_parse(fresh, cur, args);
             }
             else return "BADCASE";
